@@ -847,3 +847,74 @@ pub fn pairwise(states: &[QState], acc: &mut Acc) {
     }
     acc.add("content_pairs_compared", (n * n) as u64);
 }
+
+/// Long histories on larger collections (sizes beyond the BFS universe): 12 keys inserted in four
+/// orders and removed in three, with the full state oracle after every step. Deterministic.
+pub fn long_histories(acc: &mut Acc) -> Value {
+    let keys: Vec<String> = ["a", "ab", "a_", "b", "b-1", "b.2", "c", "k", "m9", "n_n", "z", "zz"].iter().map(|s| s.to_string()).collect();
+    let n = keys.len();
+    let asc: Vec<usize> = (0..n).collect();
+    let desc: Vec<usize> = (0..n).rev().collect();
+    let zigzag: Vec<usize> = (0..n).map(|i| if i % 2 == 0 { i / 2 } else { n - 1 - i / 2 }).collect();
+    let riffle: Vec<usize> = (0..n).map(|i| (i * 5) % n).collect();
+    let middle_out: Vec<usize> = (0..n).map(|i| if i % 2 == 0 { n / 2 + i / 2 } else { n / 2 - 1 - i / 2 }).collect();
+    let m = QModel { name: "quals-long", keys: keys.clone(), invalid: vec!["".into(), "\u{212A}".into()], values: vec![], acts: vec![], typed: false, init_from_pairs: 0 };
+    let mut steps = 0u64;
+    for (oi, order) in [&asc, &desc, &zigzag, &riffle].iter().enumerate() {
+        for (ri, rem) in [&asc, &desc, &middle_out].iter().enumerate() {
+            let mut st = QState { real: Qualifiers::default(), refm: BTreeMap::new() };
+            let mut history: Vec<Value> = Vec::new();
+            for (j, i) in order.iter().enumerate() {
+                // alternate the letter case and the API used
+                let k = if j % 2 == 0 { keys[*i].clone() } else { keys[*i].to_ascii_uppercase() };
+                let act = match j % 3 {
+                    0 => QAct::Insert(k, format!("v{j}")),
+                    1 => QAct::EntryVacantInsert(k, format!("v{j}")),
+                    _ => QAct::EntryOrInsert(k, format!("v{j}")),
+                };
+                history.push(json!(format!("{:?}", act)));
+                let tr = || json!({"engine": "quals-long", "insert_order": oi, "remove_order": ri, "history": history});
+                match guarded(|| {
+                    let nx = m.step(&st, &act, &tr, acc);
+                    m.check_state(&nx, &tr, acc);
+                    nx
+                }) {
+                    Ok(nx) => st = nx,
+                    Err(msg) => {
+                        acc.violate(Violation { prop: "C06", kind: "panic".into(), case: tr(), detail: msg });
+                        break;
+                    },
+                }
+                steps += 1;
+            }
+            for (j, i) in rem.iter().enumerate() {
+                let k = if j % 2 == 1 { keys[*i].clone() } else { keys[*i].to_ascii_uppercase() };
+                let act = match j % 3 {
+                    0 => QAct::Remove(k),
+                    1 => QAct::EntryOccupied(k, 4, String::new()),
+                    _ => QAct::EntryOccupied(k, 5, String::new()),
+                };
+                history.push(json!(format!("{:?}", act)));
+                let tr = || json!({"engine": "quals-long", "insert_order": oi, "remove_order": ri, "history": history});
+                match guarded(|| {
+                    let nx = m.step(&st, &act, &tr, acc);
+                    m.check_state(&nx, &tr, acc);
+                    nx
+                }) {
+                    Ok(nx) => st = nx,
+                    Err(msg) => {
+                        acc.violate(Violation { prop: "C06", kind: "panic".into(), case: tr(), detail: msg });
+                        break;
+                    },
+                }
+                steps += 1;
+            }
+            if !st.real.is_empty() {
+                acc.violate(Violation { prop: "C11", kind: "long-history-not-empty".into(), case: json!({"engine": "quals-long", "insert_order": oi, "remove_order": ri}), detail: format!("after removing every key the collection still holds {:?}", content(&st.real)) });
+            }
+        }
+    }
+    acc.evals += steps;
+    acc.nontrivial += steps;
+    json!({"engine": "C-long-histories", "keys": n, "histories": 12, "steps": steps})
+}
